@@ -49,27 +49,37 @@ Lst(s) == [t |-> "l", v |-> s]
 Ref(o) == [t |-> "r", v |-> o]                      \* reference to an object of the universe
 ObjV(k, v) == [t |-> "o", k |-> k, v |-> v]         \* ordered object (response / variable value)
 Var(n) == [t |-> "v", v |-> n]                      \* variable reference inside a document
+EnumV(n) == [t |-> "e", v |-> n]                    \* enum literal inside a document (JSON form: the string)
 \* a field whose value depends on ONE argument: m = <<[k |-> arg value, v |-> result]..>>, d = otherwise
 Fn(arg, m, d) == [t |-> "fn", a |-> arg, m |-> m, d |-> d]
 Case(k, v) == [k |-> k, v |-> v]
+\* a root MUTATION field with an effect: adds its Int argument `arg` to the world's single counter and returns the
+\* new value -- the order in which root mutation fields are executed (also across subgraphs) is visible in `data`
+Ctr(arg) == [t |-> "ctr", a |-> arg]
 
 \* ------------------------------------------------------------------ field sets (@key/@requires/@provides)
 FS(n) == [name |-> n, sel |-> <<>>]
 FSN(n, sel) == [name |-> n, sel |-> sel]
 
 \* ------------------------------------------------------------------ definitions
-F(name, type) == [name |-> name, type |-> type, args |-> <<>>, ext |-> FALSE, req |-> <<>>, prov |-> <<>>]
+F(name, type) == [name |-> name, type |-> type, args |-> <<>>, ext |-> FALSE, req |-> <<>>, prov |-> <<>>, inacc |-> FALSE]
 \* (no EXCEPT in the constructors: TLC does not pre-evaluate and cache constant definitions that go through it)
-FA(name, type, argn, argt) == [name |-> name, type |-> type, args |-> <<[name |-> argn, type |-> argt]>>, ext |-> FALSE, req |-> <<>>, prov |-> <<>>]
-Ext(f) == [name |-> f.name, type |-> f.type, args |-> f.args, ext |-> TRUE, req |-> f.req, prov |-> f.prov]
-Req(f, sel) == [name |-> f.name, type |-> f.type, args |-> f.args, ext |-> f.ext, req |-> sel, prov |-> f.prov]
-Prov(f, sel) == [name |-> f.name, type |-> f.type, args |-> f.args, ext |-> f.ext, req |-> f.req, prov |-> sel]
+FA(name, type, argn, argt) == [name |-> name, type |-> type, args |-> <<[name |-> argn, type |-> argt]>>, ext |-> FALSE, req |-> <<>>, prov |-> <<>>, inacc |-> FALSE]
+Ext(f) == [name |-> f.name, type |-> f.type, args |-> f.args, ext |-> TRUE, req |-> f.req, prov |-> f.prov, inacc |-> f.inacc]
+Req(f, sel) == [name |-> f.name, type |-> f.type, args |-> f.args, ext |-> f.ext, req |-> sel, prov |-> f.prov, inacc |-> f.inacc]
+Prov(f, sel) == [name |-> f.name, type |-> f.type, args |-> f.args, ext |-> f.ext, req |-> f.req, prov |-> sel, inacc |-> f.inacc]
+\* @inaccessible: the field exists in the subgraphs and for the planner (keys, @requires) but not in the client schema
+Inacc(f) == [name |-> f.name, type |-> f.type, args |-> f.args, ext |-> f.ext, req |-> f.req, prov |-> f.prov, inacc |-> TRUE]
 Key(sel) == [sel |-> sel, res |-> TRUE]
 KeyNR(sel) == [sel |-> sel, res |-> FALSE]           \* @key(resolvable: false)
 
 Obj(name, keys, impl, fields) == [name |-> name, kind |-> "OBJECT", keys |-> keys, impl |-> impl, members |-> <<>>, fields |-> fields]
 Iface(name, fields) == [name |-> name, kind |-> "INTERFACE", keys |-> <<>>, impl |-> <<>>, members |-> <<>>, fields |-> fields]
 Uni(name, members) == [name |-> name, kind |-> "UNION", keys |-> <<>>, impl |-> <<>>, members |-> members, fields |-> <<>>]
+\* leaf / input kinds re-use the record shape: enum values in `members`, input fields in `fields`
+Enum(name, values) == [name |-> name, kind |-> "ENUM", keys |-> <<>>, impl |-> <<>>, members |-> values, fields |-> <<>>]
+Input(name, fields) == [name |-> name, kind |-> "INPUT", keys |-> <<>>, impl |-> <<>>, members |-> <<>>, fields |-> fields]
+Scalar(name) == [name |-> name, kind |-> "SCALAR", keys |-> <<>>, impl |-> <<>>, members |-> <<>>, fields |-> <<>>]
 SG(name, types) == [name |-> name, types |-> types]
 
 \* data universe: objs = sequence of [id, type, f |-> [field |-> value]]; the root object has id "Q"
@@ -89,7 +99,8 @@ Arg(n, v) == [name |-> n, val |-> v]
 Dir(n, v) == [name |-> n, val |-> v]
 VarDef(n, ty, def) == [name |-> n, type |-> ty, def |-> def]
 Frag(n, on, sel) == [name |-> n, on |-> on, sel |-> sel]
-Doc(sel, frags, vars) == [sel |-> sel, frags |-> frags, vars |-> vars]
+Doc(sel, frags, vars) == [sel |-> sel, frags |-> frags, vars |-> vars, op |-> "query"]
+MDoc(sel, frags, vars) == [sel |-> sel, frags |-> frags, vars |-> vars, op |-> "mutation"]
 RKey(f) == IF f.alias = "" THEN f.name ELSE f.alias
 
 \* ------------------------------------------------------------------ merged supergraph
@@ -104,7 +115,7 @@ MergeFields(defs) ==
         LET cands == SelectSeq(all, LAMBDA f : f.name = names[i])
             own == SelectSeq(cands, LAMBDA f : ~f.ext)
             f == IF own = <<>> THEN cands[1] ELSE own[1]
-        IN [f EXCEPT !.ext = FALSE, !.prov = <<>>]])
+        IN [f EXCEPT !.ext = FALSE, !.prov = <<>>, !.inacc = \E c \in DOMAIN cands : cands[c].inacc]])
 MergeType(sgs, tn) ==
   LET defs == DefsOf(sgs, tn)
   IN [name |-> tn, kind |-> defs[1].kind,
@@ -117,7 +128,7 @@ SuperTypes(sgs) == LET tns == AllTypeNames(sgs) IN TLCEval([i \in DOMAIN tns |->
 \* ------------------------------------------------------------------ schema queries (types = sequence of type definitions)
 IsType(types, tn) == HasName(types, tn)
 TypeOf(types, tn) == ByName(types, tn)
-IsComposite(types, tn) == IsType(types, tn)
+IsComposite(types, tn) == IsType(types, tn) /\ TypeOf(types, tn).kind \in {"OBJECT", "INTERFACE", "UNION"}
 HasField(types, tn, fn) == IsType(types, tn) /\ HasName(TypeOf(types, tn).fields, fn)
 FieldOf(types, tn, fn) == ByName(TypeOf(types, tn).fields, fn)
 Possible(types, tn) ==
